@@ -58,8 +58,12 @@ FileInfo FileInfo::getInfoForPath(const std::string& path, bool asLink) {
   result.modTime.seconds = seconds;
   result.modTime.nanoseconds = nanoseconds;
 
-  // Enforce we never accidentally create our sentinel missing file value.
-  if (result.isMissing()) {
+  // Enforce we never accidentally create our sentinel missing file value. The
+  // comparison of file infos ignores the mode, and a file system wrapper may
+  // clear the device and inode, so an empty file with a zero timestamp must
+  // not be left looking like the missing file value either.
+  if (result.size == 0 && result.modTime.seconds == 0 &&
+      result.modTime.nanoseconds == 0) {
     result.modTime.nanoseconds = 1;
     assert(!result.isMissing());
   }
